@@ -24,6 +24,10 @@ for d in seeded/*/; do
       skipped=$((skipped+1)); rm -rf "$S"; continue
     fi
     out=$(bin/govc check -prop "$P" -repo "$S" -no-evidence -no-replay 2>&1)
+    if [ "$P" = "C16" ] && ! echo "$out" | grep -q "^VIOLATION property=$P"; then
+      # the seeds that only the generated-code corpus sees
+      out=$(VERIF_REPO="$S" CORPUS_NO_EVIDENCE=1 tools/corpus_check.sh "$P" 2>&1)
+    fi
     rm -rf "$S"
     ran=$((ran+1))
     if echo "$out" | grep -q "^VIOLATION property=$P"; then
